@@ -329,13 +329,14 @@ func CheckText(c TextCase) (v vcase.Verdict) {
 		v.NonTrivial = true
 	}
 	var err error
+	var starFilter *benchproc.Filter
 	pmsg, hung := vcase.Watchdog(20*time.Second, func() {
 		if c.Kind == "filter" {
 			_, err = benchproc.NewFilter(text)
 		} else {
 			var pp benchproc.ProjectionParser
-			f, _ := benchproc.NewFilter("*")
-			_, err = pp.Parse(text, f)
+			starFilter, _ = benchproc.NewFilter("*")
+			_, err = pp.Parse(text, starFilter)
 		}
 	})
 	if hung {
@@ -354,6 +355,15 @@ func CheckText(c TextCase) (v vcase.Verdict) {
 		return
 	}
 	v.Label("rejected")
+	if starFilter != nil {
+		// a rejected projection must leave the caller's filter as it was ("*" matches everything)
+		probe := &benchfmt.Result{Name: benchfmt.Name("N/size=1-4"), Iters: 1, Values: []benchfmt.Value{{Value: 1, Unit: "u"}},
+			Config: []benchfmt.Config{{Key: "a", Value: []byte("zz"), File: true}, {Key: "goos", Value: []byte("plan9"), File: true}}}
+		if m, _ := starFilter.Match(probe); !m.All() {
+			v.Failf("projection %q was rejected (%v) but the filter passed to Parse no longer matches everything", text, err)
+			return
+		}
+	}
 	if c.Accept {
 		v.Failf("grammatical %s expression %q was rejected: %v", c.Kind, text, err)
 		return
@@ -413,6 +423,14 @@ func GenText(t *rapid.T) TextCase {
 		}
 		c.Edit = "none(valid)"
 		c.Accept = true
+		if vcase.OneIn(t, 6, "padws") {
+			ws := rapid.SampledFrom([]string{" ", "\t", "\u00a0", "\u2003", "\u0085", "\u3000"}).Draw(t, "ws")
+			if rapid.Bool().Draw(t, "wslead") || strings.HasSuffix(text, "/") {
+				text = ws + text
+			} else {
+				text = text + ws
+			}
+		}
 	default: // destructive edit of a valid expression
 		if c.Kind == "filter" {
 			base, hasRe := genFilterText2(t)
